@@ -75,7 +75,19 @@ def enum_units(tier, seed):
     sc = {"k": "scope", "n": "sc_k", "b": [{"k": "const", "n": "k_in", "e": L(2), "eager": True}, db(["id", "k_in"])]}
     cases.append({"rom": "low", "files": {}, "ir": [org, sc, {"k": "if", "c": ["id", "sc_k.k_in"], "t": [db(L(1))], "e": [db(L(0))]},
                                                    {"k": "for", "v": "i_0", "lo": L(0), "hi": ["id", "sc_k.k_in"], "b": [db(["id", "i_0"])]}, db(["id", "sc_k.k_in"])]})
-    return {"units": [{"cases": cases}], "exhaustive": False}
+    # conditions and bounds over names defined many levels above (nested one-iteration loops, blocks, scopes): a := constant
+    # of the top level and the outermost loop variable stay visible at any depth
+    from vlib import twins as _tw
+
+    for depth in (3, 9, 16, 17, 18, 32, 33, 34, 40):
+        inner = [{"k": "if", "c": ["id", "k_flag"], "t": [db(L(0x11))], "e": [db(L(0x22))]},
+                 {"k": "if", "c": ["id", "i_top"], "t": [db(L(0x33))], "e": [db(L(0x44))]},
+                 {"k": "for", "v": "i_in", "lo": L(0), "hi": ["id", "k_two"], "b": [db(["id", "i_in"], ["id", "i_top"])]}]
+        for kinds in (("for",), ("for", "block", "scope")):
+            ir = [{"k": "const", "n": "k_flag", "e": L(1), "eager": True}, {"k": "const", "n": "k_two", "e": L(2), "eager": True}, org,
+                  {"k": "for", "v": "i_top", "lo": L(1), "hi": L(3), "b": _tw.nest(depth - 1, inner, kinds)}, db(L(0xEE))]
+            cases.append({"rom": "low", "files": {}, "ir": ir})
+    return {"units": [{"cases": cases[i::4]} for i in range(4)], "exhaustive": False}
 
 
 def unit_cases(unit):
